@@ -63,18 +63,18 @@ Definition outcome_of (b : list N) : string * Z * Z :=
 Definition too_deep (b : list N) : bool := String.eqb (fst (fst (outcome_of b))) "Maximum parse depth exceeded".
 Definition accepted (b : list N) : bool := String.eqb (fst (fst (outcome_of b))) "OK".
 (* the deepest accepted nesting and the first rejected one, per construct *)
-Example C01_depth_parens : accepted (rep 33 (bos "(") ++ bos "1" ++ rep 33 (bos ")")) = true /\ too_deep (rep 34 (bos "(") ++ bos "1" ++ rep 34 (bos ")")) = true
-                           /\ too_deep (rep 600 (bos "(") ++ bos "1" ++ rep 600 (bos ")")) = true.
+Example C01_depth_parens : accepted (rep 32 (bos "(") ++ bos "1" ++ rep 32 (bos ")")) = true /\ too_deep (rep 33 (bos "(") ++ bos "1" ++ rep 33 (bos ")")) = true
+                           /\ too_deep (rep 100 (bos "(") ++ bos "1" ++ rep 100 (bos ")")) = true.
 Proof. vm_compute. auto. Qed.
-Example C01_depth_braces : too_deep (rep 600 (bos "{") ++ rep 600 (bos "}")) = true /\ accepted (rep 30 (bos "{") ++ rep 30 (bos "}")) = true.
+Example C01_depth_braces : too_deep (rep 300 (bos "{") ++ rep 300 (bos "}")) = true /\ accepted (rep 30 (bos "{") ++ rep 30 (bos "}")) = true.
 Proof. vm_compute. auto. Qed.
-Example C01_depth_brackets : too_deep (rep 600 (bos "[")) = true /\ accepted (rep 6 (bos "[") ++ bos "1" ++ rep 6 (bos "]")) = true.
+Example C01_depth_brackets : too_deep (rep 100 (bos "[")) = true /\ accepted (rep 6 (bos "[") ++ bos "1" ++ rep 6 (bos "]")) = true.
 Proof. vm_compute. auto. Qed.
-Example C01_depth_prefix : too_deep (rep 600 (bos "-") ++ bos "x") = true /\ too_deep (rep 600 (bos "!") ++ bos "x") = true /\ accepted (rep 40 (bos "!") ++ bos "x") = true.
+Example C01_depth_prefix : too_deep (rep 400 (bos "-") ++ bos "x") = true /\ too_deep (rep 200 (bos "!") ++ bos "x") = true /\ accepted (rep 40 (bos "!") ++ bos "x") = true.
 Proof. vm_compute. auto. Qed.
 Example C01_depth_lambdas : too_deep (rep 100 (bos "fun(){ ") ++ bos "1" ++ rep 100 (bos " }")) = true /\ accepted (rep 5 (bos "fun(){ ") ++ bos "1" ++ rep 5 (bos " }")) = true.
 Proof. vm_compute. auto. Qed.
-Example C01_depth_ternaries : too_deep (rep 100 (bos "a ? ") ++ bos "b" ++ rep 100 (bos " : c")) = true /\ accepted (rep 5 (bos "a ? ") ++ bos "b" ++ rep 5 (bos " : c")) = true.
+Example C01_depth_ternaries : too_deep (rep 100 (bos "(a ? ") ++ bos "b" ++ rep 100 (bos " : c)")) = true /\ accepted (rep 5 (bos "(a ? ") ++ bos "b" ++ rep 5 (bos " : c)")) = true.
 Proof. vm_compute. auto. Qed.
 Example C01_depth_equations : too_deep (rep 600 (bos "x = ") ++ bos "1") = true.
 Proof. vm_compute. auto. Qed.
